@@ -462,6 +462,14 @@ ARGS_LOOP:
 		// handle commands and subcommands
 		for k, v := range currentProgramNode.ChildCommands {
 			if k == iterator.Value() {
+				// Arguments and unknown options found before the command belong to the
+				// command line as a whole, carry them over so they aren't lost.
+				if len(currentProgramNode.ChildText) > 0 {
+					v.ChildText = append(append([]string{}, currentProgramNode.ChildText...), v.ChildText...)
+				}
+				if len(currentProgramNode.UnknownOptions) > 0 {
+					v.UnknownOptions = append(append([]*option.Option{}, currentProgramNode.UnknownOptions...), v.UnknownOptions...)
+				}
 				currentProgramNode = v
 				continue ARGS_LOOP
 			}
